@@ -56,11 +56,16 @@ def assign_canonical_labels(m: nx.Graph) -> dict[int, int]:
     """
 
     m_igraph = iGraph.from_networkx(m)
-    old_labels = m_igraph.vs["_nx_name"]
     partitions = m_igraph.vs[PARTITION]
-    canonical_labels = m_igraph.canonical_permutation(color=partitions)
+    canonical_permutation = m_igraph.canonical_permutation(color=partitions)
+    # Read the canonical labels off the permuted graph instead of interpreting
+    # the permutation vector (its index/value convention depends on the igraph version).
+    m_canonical = m_igraph.permute_vertices(canonical_permutation)
+    old_labels_in_canonical_order = m_canonical.vs["_nx_name"]
 
-    return dict(zip(old_labels, canonical_labels))
+    return dict(
+        zip(old_labels_in_canonical_order, range(len(old_labels_in_canonical_order)))
+    )
 
 
 def canonicalize_molecule(m: nx.Graph) -> nx.Graph:
